@@ -1,0 +1,8 @@
+//go:build !verif
+
+package generate
+
+import "github.com/vektah/gqlparser/v2/ast"
+
+// verifTypeMapEvent is a no-op in normal builds (see verif_typemap_on.go).
+func (g *generator) verifTypeMapEvent(string, string, string, ast.SelectionSet) {}
